@@ -473,8 +473,16 @@ pub async fn catch_up_sub(
                     _ = cancel.cancelled() => {
                         break;
                     },
-                    Ok(res) = sub_rx.recv() => res,
-                    else => break
+                    res = sub_rx.recv() => match res {
+                        Ok(res) => res,
+                        // the receiver skipped events: continuity can not be provided anymore
+                        Err(RecvError::Lagged(skipped)) => {
+                            return Err(eyre::eyre!(
+                                "catching up too slowly, skipped {skipped} events"
+                            ));
+                        }
+                        Err(RecvError::Closed) => break,
+                    },
                 };
 
                 if let QueryEventMeta::Change(change_id) = meta
@@ -651,7 +659,14 @@ pub async fn catch_up_sub(
         }
     };
 
-    forward_sub_to_sender(matcher, sub_rx, evt_tx, params.skip_rows).await
+    forward_sub_to_sender(
+        matcher,
+        sub_rx,
+        evt_tx,
+        params.skip_rows,
+        Some(last_change_id),
+    )
+    .await
 }
 
 pub async fn upsert_sub(
@@ -674,6 +689,7 @@ pub async fn upsert_sub(
             sub_rx,
             tx,
             params.skip_rows,
+            None,
         ));
 
         bcast_write.insert(handle.id(), sub_tx.clone());
@@ -824,6 +840,8 @@ async fn forward_sub_to_sender(
     mut sub_rx: broadcast::Receiver<(Bytes, QueryEventMeta)>,
     tx: mpsc::Sender<(Bytes, QueryEventMeta)>,
     skip_rows: bool,
+    // last change id already delivered to this subscriber by the catch-up, if any
+    mut last_change_id: Option<ChangeId>,
 ) {
     info!(sub_id = %handle.id(), "forwarding subscription events to a sender");
 
@@ -855,6 +873,24 @@ async fn forward_sub_to_sender(
             )
         {
             continue;
+        }
+        if let (QueryEventMeta::Change(change_id), Some(last)) = (meta, last_change_id) {
+            if change_id <= last {
+                // still in the receiver from before the catch-up, already delivered
+                continue;
+            }
+            if change_id > last + 1 {
+                warn!(sub_id = %handle.id(), "missed changes between {last:?} and {change_id:?}, aborting");
+                let mut buf = BytesMut::new();
+                _ = tx
+                    .send(error_to_query_event_bytes_with_meta(
+                        &mut buf,
+                        "missed changes while catching up",
+                    ))
+                    .await;
+                return;
+            }
+            last_change_id = Some(change_id);
         }
         if let Err(e) = tx.send((event_buf, meta)).await {
             warn!(sub_id = %handle.id(), "could not send subscription event to channel: {e}");
